@@ -1713,6 +1713,18 @@ impl proto::Peer for Peer {
         fields: HeaderMap,
         stream_id: StreamId,
     ) -> Result<Self::Poll, Error> {
+        // Pseudo-header fields defined for requests must not appear in
+        // responses; such a response is malformed (RFC 9113, section 8.3).
+        if pseudo.method.is_some()
+            || pseudo.scheme.is_some()
+            || pseudo.authority.is_some()
+            || pseudo.path.is_some()
+            || pseudo.protocol.is_some()
+        {
+            proto_err!(stream: "malformed headers: request pseudo-header field in response; stream={:?}", stream_id);
+            return Err(Error::library_reset(stream_id, Reason::PROTOCOL_ERROR));
+        }
+
         let mut b = Response::builder();
 
         b = b.version(Version::HTTP_2);
